@@ -231,6 +231,12 @@ func (mT *provider) Shutdown() error {
 					}
 				}
 
+				// a Will that has become the retained message of its topic never had a packet identifier,
+				// and without one a QoS 1/2 PUBLISH cannot be encoded (see writer.getQueuedPackets)
+				if _, e := pkt.ID(); e != nil {
+					pkt.SetPacketID(0)
+				}
+
 				if buf, err := mqttp.Encode(pkt); err != nil {
 					mT.log.Error("Couldn't encode retained message", zap.Error(err))
 				} else {
